@@ -237,6 +237,53 @@ class World:
             self.n_oblig += 1
             self.n_discharged += 1
 
+    def holds(self, got, want):
+        """soft version of equal(): True iff got == want cell by cell for all values (sym: decided by z3
+        under the path condition and assumptions) / numerically (float).  Records nothing."""
+        g, gs = _flatten(got)
+        w, ws = _flatten(want)
+        if g is None or w is None or gs != ws:
+            return False
+        if not self.sym:
+            for a, b in zip(g, w):
+                if _isnan(a) or _isnan(b):
+                    if not (_isnan(a) and _isnan(b)):
+                        return False
+                    continue
+                a, b = float(a), float(b)
+                if abs(a - b) > 1e-9 * max(1.0, abs(a), abs(b)):
+                    return False
+            return True
+        diffs = []
+        for a, b in zip(g, w):
+            if _isnan(a) or _isnan(b):
+                if not (_isnan(a) and _isnan(b)):
+                    return False
+                continue
+            ta, tb_ = lift(a), lift(b)
+            if ta is None or tb_ is None:
+                if not (a is b or a == b):
+                    return False
+                continue
+            if not ta.eq(tb_):
+                diffs.append(ta != tb_)
+        if not diffs:
+            return True
+        t0 = time.time()
+        goal = z3.Or(diffs) if len(diffs) > 1 else diffs[0]
+        if z3.is_false(z3.simplify(goal)):
+            self.solver_calls += 1
+            self.solver_s += time.time() - t0
+            return True
+        base = list(self.ctx.assumptions) + list(self.ctx.pc) + list(self.extra_axioms)
+        r, _ = _solve(base + [goal])
+        self.solver_calls += 1
+        self.solver_s += time.time() - t0
+        if r == "unknown":
+            self.n_inconclusive += 1
+            self.fail("__inconclusive__", "solver unknown in holds()")
+        return r == "unsat"
+
     def _decide(self, label, negs):
         """negs: list of (id, negated-claim term, detail).  Claim holds iff pc & assumptions & Or(negs) unsat."""
         self.n_oblig += 1
